@@ -108,6 +108,8 @@ def gen(rng, scenario, tier):
         for r, y in zip(rows, ys):
             if rng.random() < 0.01:
                 ev.append(["r"])
+            if rng.random() < 0.015 and any(e[0] == "u" for e in ev):       # (a width is only wrong once one is established)
+                ev.append(["bad", rng.choice(["rows2", "width+1"]), np_seed(rng)])   # malformed call to the ensemble
             ev.append(["u", r, y, np_seed(rng)])
     else:
         nb = rng.randint(6, 16)
@@ -117,6 +119,8 @@ def gen(rng, scenario, tier):
             c = rng.random()
             if c < 0.05:
                 ev.append(["r"])
+            if rng.random() < 0.08:
+                ev.append(["bad", rng.choice(["rows1", "width+1"]), np_seed(rng)])
             if c > 0.93:
                 ev.append(["ref", b, np_seed(rng)])
             else:
@@ -189,6 +193,52 @@ def run(case, ctx):
             since = 0
             if ens.drift_state is not None:
                 ctx.violation("reset", "C12:reset:ensemble_state", f"ensemble drift_state {ens.drift_state!r} after reset()")
+        elif ev[0] == "bad":
+            kind = ev[1]
+            rows = {"rows2": 2, "rows1": 1}.get(kind, 1 if stream else 6)
+            width = 4 if kind == "width+1" else 3
+            raw = (np.arange(rows * width, dtype=float).reshape(rows, width) * 0.125 + 0.25).tolist()
+
+            def mk():
+                a = np.array(raw, dtype=float)
+                return pd.DataFrame(a, columns=(COLS + ["zz"])[:width]) if container == "df" else a
+
+            ya = (1, 1) if stream else (None, None)
+            try:
+                if stream:
+                    ens.update(mk(), ya[0], ya[1])
+                else:
+                    ens.update(mk())
+                raised = None
+            except ValueError:
+                raised = "ValueError"
+            except Exception as e:  # noqa: BLE001
+                raised = type(e).__name__
+            ctx.fault("malformed_call_to_ensemble:" + kind)
+            # members run as if alone, in insertion order, until the first one refuses the call
+            expect = None
+            for k in keys:
+                np.random.seed(derive(clock[0], k) % (2**32 - 1))
+                try:
+                    Xs = sels[k](mk()) if sels[k] else mk()
+                    twins[k].update(X=Xs, y_true=ya[0], y_pred=ya[1])
+                except ValueError:
+                    expect = "ValueError"
+                    break
+                except Exception:  # noqa: BLE001 (e.g. a selector that cannot index the malformed frame)
+                    expect = "other"
+                    break
+            if expect == "other" or (raised not in (None, "ValueError")):
+                raise EndRun()      # the selector itself (user code) failed on the malformed input: nothing to judge
+            if raised != expect:
+                ctx.violation("bad_call", "C12:malformed_call",
+                              f"event {i}: malformed {kind} call: ensemble {'accepted it' if raised is None else 'raised ' + raised}, members run alone {'accept it' if expect is None else 'refuse it'}")
+                raise EndRun()
+            if raised is None:
+                n_updates += 1
+                since += 1
+                ctx.sim_time += 1
+                ev = ["u"]           # accepted: the election ran, check the verdict below
         elif ev[0] == "ref":
             X = _wrap(ev[1], container)
             ctx.call("C12:set_reference", ens.set_reference, X)
@@ -263,12 +313,16 @@ def truncate(case, step):
 
 
 def fix(case):
-    if case["scenario"] == "batch" and (not case["events"] or case["events"][0][0] != "ref"):
+    ev = case["events"]
+    if case["scenario"] == "batch" and (not ev or ev[0][0] != "ref"):
         return None
+    first_u = next((i for i, e in enumerate(ev) if e[0] == "u"), len(ev))
+    if any(e[0] == "bad" for e in ev[:first_u]) and case["scenario"] == "stream":
+        return None     # a "wrong width" exists only after an accepted input
     return case
 
 
 def summarize(case):
     return {"scenario": case["scenario"], "members": [[m[0], m[2]] for m in case["members"]], "selectors": case["selectors"],
             "election": case["election"], "container": case["container"],
-            "ops": "".join({"u": "u", "r": "R", "ref": "S"}[e[0]] for e in case["events"][:80])}
+            "ops": "".join({"u": "u", "r": "R", "ref": "S", "bad": "!"}[e[0]] for e in case["events"][:80])}
